@@ -72,6 +72,9 @@ class LiveHistory:
     def do(self, edit, via_update=False, compare_with_rebuild=True):
         """Apply one edit to the live system. Returns the recorded event (dict)."""
         ns, log = self.ns, self.log
+        expect_refusal = edit[0] == "refused"      # an edit the code must refuse (a capacity check fails while recomputing)
+        if expect_refusal:
+            edit = edit[1]
         self.seq += 1
         system = self.live[self.sysn]
         pre_totals = totals(ns, system)
@@ -91,6 +94,20 @@ class LiveHistory:
             ev["msg"] = str(ex)[:300]
             ev["phases"] = log.names()
             ev["tb"] = traceback.format_exc()[-1500:]
+            if expect_refusal:
+                # a refused edit is no edit: every value must be what it was, which is what a rebuilt system computes
+                ev["ev"] = "Refused"
+                names = self.names()
+                try:
+                    post_snap = efx.snapshot(ns, self.live, pre_names)
+                    ev["changed"] = efx.diff_slots(pre_snap, post_snap, pre_names)
+                    ev["stale"] = []
+                    if compare_with_rebuild:
+                        fresh_snap = efx.snapshot(ns, efx.build(ns, self.model), names)
+                        ev["stale"] = efx.diff_slots(post_snap, fresh_snap, names)
+                except Exception as ex2:   # noqa: what the refused edit left cannot even be read
+                    ev["changed"] = [[edit[1], "<unreadable after the refused edit: %s>" % type(ex2).__name__, "-"]]
+                    ev["stale"] = []
             self.events.append(ev)
             return ev
         hook = list(log.events)
@@ -171,23 +188,31 @@ def run_histories(ns, seeds, n_edits, kinds=None, max_per_class=3, on_event=None
         except Exception as ex:
             yield ("build-failed", seed, model, ex)
             continue
+        refused_before = False
         last_input = None          # (object, attribute, value before the edit) of the previous input edit
         for _ in range(n_edits):
             e = gen.random_edit(rng, h.model, kinds)
-            if last_input is not None and rng.random() < 0.3:
+            if last_input is not None and rng.random() < (0.7 if refused_before else 0.3):
                 # an edit is often followed by another edit of the same input: its undo, or a second new value
                 o, a, before = last_input
                 cur = h.model[o]["inp"][a]
                 e = ("input", o, a, list(before) if rng.random() < 0.5 and before != cur else [cur[0] * 3 + (2 if cur[0] == 0 else 0), cur[1]])
-            if e[0] == "input" and e[1] in h.model and e[2] in h.model[e[1]]["inp"]:
+            if e[0] == "refused":
+                last_input = None
+            elif e[0] == "input" and e[1] in h.model and e[2] in h.model[e[1]]["inp"]:
                 last_input = (e[1], e[2], list(h.model[e[1]]["inp"][e[2]]))
             else:
                 last_input = None
             ev = h.do(e, via_update=rng.random() < 0.3)
+            refused_before = ev["ev"] == "Refused"
             if on_event:
                 on_event(h, ev)
             if ev["ev"] == "Raised" and stop_on_raise:
                 break
+            if ev["ev"] == "Refused":
+                last_input = (e[1][1], e[1][2], list(h.model[e[1][1]]["inp"][e[1][2]]))    # then an accepted value, often
+                if ev["stale"] or ev["changed"]:
+                    break
             if ev["ev"] == "Update" and ev["stale"]:
                 break       # the live system is wrong from here on: later events would only echo this one
         yield ("ok", seed, h, None)
